@@ -213,6 +213,11 @@ Definition Denotes (f : fragment) (m : mol) (img : list nat) : Prop :=
 Definition wf_bonds (f : fragment) : Prop :=
   forall i j t, In (i, j, t) (f_bonds f) -> i <> j /\ i < length (f_atoms f) /\ j < length (f_atoms f).
 
+(* every atom of a connected fragment but the first is bonded to an earlier one *)
+Definition connected (f : fragment) : Prop :=
+  forall k, 0 < k < length (f_atoms f) ->
+    exists j t, j < k /\ (In (k, j, t) (f_bonds f) \/ In (j, k, t) (f_bonds f)).
+
 Lemma find_ext' {A} (p q : A -> bool) l : (forall x, p x = q x) -> find p l = find q l.
 Proof. intros H. induction l as [|x l IH]; simpl; auto. rewrite H, IH. reflexivity. Qed.
 
